@@ -100,6 +100,13 @@ def run(tier, rnd, out):
     rt = [dec_impl(int(enc_impl(1, l)[3:], 16)) if enc_impl(1, l) != "raised" else "raised" for l in subs]
     want = ["ok " + "".join(map(str, l)) for l in subs]
     lib.differential(out, "decode-after-encode", [{"days": l} for l in subs], rt, None, want, lambda c: "decode(encode(%s))" % c["days"], sample=lambda c: c)
+    # ... and the other way: the decoder's own result handed to the encoder as it comes (whatever container type it is)
+    def back(m):
+        try: return "ok " + tools.weekdays_to_hexadecimal(tools.bit_summary_to_days(m))
+        except Exception as e: return "raised " + type(e).__name__
+    evens = list(range(2, 255, 2))
+    lib.differential(out, "encode-after-decode", [{"mask": m} for m in evens], [back(m) for m in evens], None, ["ok %02x" % m for m in evens],
+                     lambda c: "encode(decode(%d))" % c["mask"], sample=lambda c: c)
     out.exhaustive = True
 
 
